@@ -47,3 +47,38 @@ Theorem C08_singlelane_bound : forall (g : Lane.cfg) (sched : list Lane.label),
   0 < Lane.maxsize g -> length (Lane.q (run Lane.step g (Lane.init g) sched)) <= Lane.maxsize g.
 Proof. exact LaneProof.lane_bound. Qed.
 Print Assumptions C08_singlelane_bound.
+(* What an outside observer of a real parmap (thread pool, process pool, event loop) sees - pulls, hand-overs, entries to and
+   exits from the worker function - is checked against Model/ParSpec.v. A history the specification accepts respects both
+   bounds after every event, for every capacity, concurrency and history length. *)
+From MpV Require Model.ParSpec Proof.ParSpecProof.
+Theorem C08_accepted_history_respects_bounds : forall (cap conc : nat) (evs : list ParSpec.ev) (sf : ParSpec.st),
+  ParSpec.accept cap conc ParSpec.init 0 evs = inl sf ->
+  forall k, exists sk, ParSpec.accept cap conc ParSpec.init 0 (firstn k evs) = inl sk /\
+                       ParSpec.ahead sk <= cap + 3 /\ ParSpec.running sk <= conc.
+Proof. exact ParSpecProof.accepted_respects_bounds. Qed.
+Print Assumptions C08_accepted_history_respects_bounds.
+(* ... and the specification refuses only a real excess: the pull that would make it capacity + 4 outstanding, the
+   invocation that would make it concurrency + 1 running (or an impossible history). *)
+Theorem C08_refusal_is_an_excess : forall (cap conc : nat) (s : ParSpec.st) (e : ParSpec.ev) (k : ParSpec.refusal),
+  ParSpec.step cap conc s e = inr k ->
+  match k with
+  | ParSpec.LookAhead => e = ParSpec.Pull /\ cap + 3 <= ParSpec.ahead s
+  | ParSpec.Concurrency => e = ParSpec.Enter /\ conc <= ParSpec.running s
+  | ParSpec.Impossible => (e = ParSpec.Hand /\ ParSpec.pulled s <= ParSpec.handed s) \/ (e = ParSpec.Exit /\ ParSpec.running s = 0)
+  end.
+Proof. exact ParSpecProof.refusal_is_an_excess. Qed.
+Print Assumptions C08_refusal_is_an_excess.
+(* the detailed model of fifo_stream / Parmapper never leaves the specification *)
+Theorem C08_fifo_model_within_spec : forall (g : FifoStream.cfg) (sched : list FifoStream.label),
+  let s := run FifoStream.step g (FifoStream.init g) sched in
+  FifoStream.ahead s <= FifoStream.cap g + 3 /\ FifoStream.running s <= FifoStream.conc g.
+Proof. exact ParSpecProof.fifo_model_within_spec. Qed.
+Print Assumptions C08_fifo_model_within_spec.
+(* Non-vacuity: with concurrency 1 (capacity 2) a history reaching 5 outstanding elements is accepted, the sixth pull is not,
+   and a second simultaneous invocation is not. *)
+Example C08_spec_examples :
+  (exists s, ParSpec.accept 2 1 ParSpec.init 0 [ParSpec.Pull; ParSpec.Enter; ParSpec.Pull; ParSpec.Pull; ParSpec.Pull; ParSpec.Pull;
+                                               ParSpec.Exit; ParSpec.Hand; ParSpec.Pull] = inl s /\ ParSpec.peak_ahead s = 5) /\
+  ParSpec.accept 2 1 ParSpec.init 0 (repeat ParSpec.Pull 6) = inr (5, ParSpec.LookAhead) /\
+  ParSpec.accept 2 1 ParSpec.init 0 [ParSpec.Pull; ParSpec.Enter; ParSpec.Pull; ParSpec.Enter] = inr (3, ParSpec.Concurrency).
+Proof. split; [eexists; split; vm_compute; reflexivity | split; vm_compute; reflexivity]. Qed.
